@@ -629,6 +629,9 @@ func lt(a float64, b float64) bool { return a < b }
 func le(a float64, b float64) bool { return a <= b }
 func eq(a float64, b float64) bool { return a == b }
 func ne(a float64, b float64) bool { return a != b }
+func gt(a float64, b float64) bool { return a > b }
+func ge(a float64, b float64) bool { return a >= b }
+func mix(a float64, b float64) bool { return !(a < b) == (a >= b) }
 func neg(a float64) float64 { return -a }
 func addk(a float64) float64 { return a + 1 }
 func ti(a float64) int { return int(a) }
@@ -673,6 +676,9 @@ func ti(a float64) int { return int(a) }
 			check("float", in+" <=", fcall("le", goat.Float64(a), goat.Float64(b)), fmt.Sprint(a <= b)+":bool")
 			check("float", in+" ==", fcall("eq", goat.Float64(a), goat.Float64(b)), fmt.Sprint(a == b)+":bool")
 			check("float", in+" !=", fcall("ne", goat.Float64(a), goat.Float64(b)), fmt.Sprint(a != b)+":bool")
+			check("float", in+" >", fcall("gt", goat.Float64(a), goat.Float64(b)), fmt.Sprint(a > b)+":bool")
+			check("float", in+" >=", fcall("ge", goat.Float64(a), goat.Float64(b)), fmt.Sprint(a >= b)+":bool")
+			check("float", in+" !(a<b)==(a>=b)", fcall("mix", goat.Float64(a), goat.Float64(b)), fmt.Sprint(!(a < b) == (a >= b))+":bool")
 		}
 		check("float", fmt.Sprintf("float64 -(%x)", math.Float64bits(a)), fcall("neg", goat.Float64(a)), fb(-a))
 		check("float", fmt.Sprintf("float64 %x + 1", math.Float64bits(a)), fcall("addk", goat.Float64(a)), fb(a+1))
